@@ -453,6 +453,8 @@ def extract_lexer(F: Facts, g: Optional[Grammar] = None) -> LexSpec:
         _, lex_m, _ = parser_modules(F)
     else:
         lex_m = g.lexmodule
+    if 'states' in lex_m.assigns:
+        raise AnalysisError('lexer: lexer states (`states = ...`) are not modelled: the token-level analyses know one rule set only')
     frules: List[LexRule] = []
     srules: List[LexRule] = []
     ignore = ''
